@@ -344,6 +344,14 @@ def gen_eq_named(ctx, tabs, n, budget):
         if rng.random() < 0.5:
             ea, ka, eb, kb = eb, kb, ea, ka
         out.append(eq_case(ctx, ea, ka, eb, kb, lab))
+    # always (cheap in the model: tables without holidays): a plain Cal against a NAMED calendar WITH A SETTLEMENT PART whose
+    # closures all fall on days the Cal is closed anyway - equal business days, different settlement days - both ways round
+    for nm, mask, lab in (("bus|bus", [5, 6], "settlement differs on closed days"), ("all|bus", [], "settlement differs"),
+                          ("bus|all", [5, 6], "same behaviour"), ("BUS,bus|All", [5, 6], "same behaviour"), ("bus", [5, 6], "same behaviour"),
+                          ("bus|bus", [6, 5, 5], "settlement differs on closed days")):
+        ea, eb = calgen.enc_named(nm, 4), enc_cal_kind(0, mask, [])
+        out.append(eq_case(ctx, eb, 0, ea, 4, "Cal vs named with a settlement part: " + lab))
+        out.append(eq_case(ctx, ea, 4, eb, 0, "named with a settlement part vs Cal: " + lab))
     return out
 
 
